@@ -301,26 +301,33 @@ func runC13(c *rt.Ctx) {
 	// must be right again - the concurrent streams below all run after this episode.
 	{
 		old := size.Formatter
-		size.Formatter = func(buf []byte, s size.Size, f size.Format) ([]byte, error) {
-			return nil, errors.New("formatter refuses")
-		}
-		c.Serial("failing-formatter-episode", func(w *rt.W) {
-			for _, s := range []size.Size{0, 1023, 1536 << 20, 1 << 30, ^size.Size(0)} {
-				for k := 0; k < 3; k++ {
-					if got, want := s.String(), strconv.FormatUint(uint64(s), 10); got != want {
-						w.Fail("failing-formatter-string-fallback", "render", rt.Args("size", fmt.Sprint(uint64(s)), "path", "String with a failing Formatter"), got, want, "String falls back to the byte count when the configured Formatter fails")
-					}
-					p1, _ := rt.Call(func() { _ = s.PrettyString() })
-					p2, _ := rt.Call(func() { _ = s.PrettyHTML() })
-					_, merr := s.MarshalText()
-					w.Eval(4)
-					if !p1 || !p2 || merr == nil {
-						w.Fail("failing-formatter-not-reported", "render", rt.Args("size", fmt.Sprint(uint64(s)), "path", "PrettyString/PrettyHTML/MarshalText with a failing Formatter"), fmt.Sprint("panicked: ", p1, " ", p2, " MarshalText error: ", merr), "panic, panic, error", "documented behaviour under a failing Formatter")
+		for _, withBytes := range []bool{false, true} {
+			withBytes := withBytes
+			size.Formatter = func(buf []byte, s size.Size, f size.Format) ([]byte, error) {
+				if withBytes {
+					b, _ := size.DefaultFormatter(buf, s, f)
+					return append(b, "?!"...), errors.New("formatter refuses")
+				}
+				return nil, errors.New("formatter refuses")
+			}
+			c.Serial("failing-formatter-episode", func(w *rt.W) {
+				for _, s := range []size.Size{0, 1023, 1536 << 20, 1 << 30, ^size.Size(0)} {
+					for k := 0; k < 3; k++ {
+						if got, want := s.String(), strconv.FormatUint(uint64(s), 10); got != want {
+							w.Fail("failing-formatter-string-fallback", "render", rt.Args("size", fmt.Sprint(uint64(s)), "path", "String with a failing Formatter"), got, want, "String falls back to the byte count when the configured Formatter fails")
+						}
+						p1, _ := rt.Call(func() { _ = s.PrettyString() })
+						p2, _ := rt.Call(func() { _ = s.PrettyHTML() })
+						_, merr := s.MarshalText()
+						w.Eval(4)
+						if !p1 || !p2 || merr == nil {
+							w.Fail("failing-formatter-not-reported", "render", rt.Args("size", fmt.Sprint(uint64(s)), "path", "PrettyString/PrettyHTML/MarshalText with a failing Formatter"), fmt.Sprint("panicked: ", p1, " ", p2, " MarshalText error: ", merr), "panic, panic, error", "documented behaviour under a failing Formatter")
+						}
 					}
 				}
-			}
-			w.ClassN("failing-formatter-episode", 1)
-		})
+				w.ClassN("failing-formatter-episode", 1)
+			})
+		}
 		size.Formatter = old
 		c.Require("failing-formatter-episode", 1)
 	}
